@@ -268,7 +268,27 @@ def _i2(model: Model, rep: Report):
     else:
         ev2 = Evaluator(model)
         hv = ev2.value_of(h, self_cls=c)
-        swapped = subst(hv, {("attr", S, a): ("attr", S, b), ("attr", S, b): ("attr", S, a)})
+        def _canon(t):
+            """order-insensitive operators read the same whichever way their operands are written: min / max / sorted / set / frozenset / sum over a display
+            (or over their own arguments) are put in one canonical operand order"""
+            from .common import devar as _devar
+            if not isinstance(t, tuple) or not t:
+                return t
+            t = tuple(_canon(x) if isinstance(x, tuple) else x for x in t)
+            if t[0] == "call" and isinstance(t[1], tuple) and len(t[1]) == 2 and t[1][0] in ("global", "builtin") and t[1][1] in ("min", "max", "sorted", "set", "frozenset", "sum"):
+                t = ("call", t[1][1]) + t[2:]      # the builtin handed around as a value (``for bound in (min, max)``) is the builtin
+            if t[0] == "call" and t[1] in ("min", "max", "sorted", "set", "frozenset", "sum") and not t[3]:
+                args = t[2]
+                if len(args) == 1 and _devar(args[0])[0] in ("list", "tuple", "set"):
+                    d = _devar(args[0])
+                    return ("call", t[1], ((d[0] if t[1] != "sorted" else "tuple", tuple(sorted(d[1], key=repr))),), ())
+                if len(args) > 1 and t[1] in ("min", "max"):
+                    return ("call", t[1], tuple(sorted(args, key=repr)), ())
+            if t[0] in ("min", "max") and len(t) == 2 and isinstance(t[1], tuple):
+                return (t[0], tuple(sorted(t[1], key=repr)))
+            return t
+        hv = _canon(hv)
+        swapped = _canon(subst(hv, {("attr", S, a): ("attr", S, b), ("attr", S, b): ("attr", S, a)}))
         leaves = subterms(hv, lambda x: x[0] == "attr" and x[1] == S)
         uses_both = {x[2] for x in leaves} >= {a, b}
         same = hv == swapped
@@ -368,6 +388,29 @@ def _i4(model: Model, rep: Report):
     idiom = ("call", "list", (("call", ("attr", ("global", "dict"), "fromkeys"), (param,), ()),), ())
     if p.value == idiom and not [e for e in p.events if e.kind == "loop"]:
         rep.ok("C19.I4", construct, fn.loc, found="list(dict.fromkeys(input))", required="first-occurrence order", note="dict idiom")
+        return
+    # comprehension idiom: [x for x in input if not (x in seen or seen.add(x))] with ``seen`` a set created empty in the function: add() answers None,
+    # so the filter keeps x exactly when it was not seen, and marks it in the same test
+    v0 = p.value
+    if v0 is not None and v0[0] == "call" and v0[1] == "list" and len(v0[2]) == 1:
+        v0 = v0[2][0]
+    if v0 is not None and v0[0] == "comp" and v0[1] in ("list", "gen") and len(v0[3]) == 1 and not [e for e in p.events if e.kind == "loop"]:
+        dom, conds = v0[3][0]
+        b = v0[2]
+        ok = dom == param and b[0] == "bound" and len(conds) == 1
+        why = ""
+        if ok:
+            c = conds[0]
+            ok = c[0] == "not" and c[1][0] == "or" and len(c[1][1]) == 2
+            if ok:
+                x, y = c[1][1]
+                if x[0] != "in":
+                    x, y = y, x
+                ok = (x[0] == "in" and x[1] == b and x[2][0] == "var" and x[2][3] in (("call", "set", (), ()), ("set", ()))
+                      and y == ("call", ("attr", x[2], "add"), (b,), ()) and c[1][1][0][0] == "in")
+                why = "" if ok else "the filter is not `not (x in seen or seen.add(x))` with the membership test first"
+        rep.check(ok, "C19.I4", construct, fn.loc, found=show(v0), required="[x for x in input if not (x in seen or seen.add(x))], seen = set()",
+                  what="de-duplication does not keep exactly the first occurrences: " + (why or "comprehension over something else than the whole input, or an unrecognised filter"), detail="comp-idiom")
         return
     loops = [e for e in p.events if e.kind == "loop"]
     if len(loops) != 1 or not isinstance(loops[0].node, ast.For):
